@@ -166,12 +166,23 @@ namespace lang
         template <class... Args>
         constexpr void emplace(pointer const pos, Args&&... args)
         {
-            auto key = std::distance(begin(), pos);
+            size_type key = std::distance(begin(), pos);
+
+            if (key > size_)
+                raise("Key larger than size!");
 
             if (size_ >= capacity_)
                 raise("No capacity left!");
 
-            replace(data_[key], value_type(args...));
+            value_type value(std::forward<Args>(args)...);
+
+            // make room: shift the tail one slot to the right
+            for (size_type i = size_; i > key; --i)
+            {
+                replace(data_[i], std::forward<value_type>(data_[i - 1]));
+            }
+
+            replace(data_[key], std::move(value));
             ++size_;
         }
 
